@@ -10,13 +10,13 @@ open Rdpgw Rdpgw.Kdc
 def cmdKdcDecode (m : List (String × String)) : String :=
   match decode (getHex m "body") with
   | none => "err"
-  | some x => s!"ok msg={hexOf x.message} realm={hexOf x.realm} flags={match x.flags with | some f => toString f | none => "none"}"
+  | some x => s!"ok msg={hexOf x.message} realm={hexOf x.realm} flags={match x.flags with | some f => hexOf f | none => "none"}"
 
 def cmdKdcEncode (m : List (String × String)) : String :=
-  hexOf (encode ⟨getHex m "msg", getHex m "realm", optNatK m "flags"⟩)
-where optNatK (m : List (String × String)) (k : String) : Option Nat :=
+  hexOf (encode ⟨getHex m "msg", getHex m "realm", optHexK m "flags"⟩)
+where optHexK (m : List (String × String)) (k : String) : Option Bytes :=
   let v := get m k
-  if v = "" ∨ v = "none" then none else v.toNat?
+  if v = "" ∨ v = "none" then none else unhex v
 
 /-- `kdc-reply body=<hex of what the KDC answered>` → the HTTP body of the 200 answer -/
 def cmdKdcReply (m : List (String × String)) : String :=
